@@ -86,7 +86,7 @@ theorem validate_sound_fixed_partial {d : ArrayData} (h : validateData d = .ok) 
   unfold LocalWF
   refine ⟨nullsOk_of_validate hh hn hi, ?_⟩
   obtain ⟨hlt, hnull, hlen, hbuf, _⟩ := validateHead_ok hh
-  rcases ht with ht | ht | ⟨w, ht⟩ | ⟨w, ht⟩ <;> rw [ht] at hnull hlen hbuf ⊢ <;> simp only [layout] at hnull hlen hbuf ⊢
+  rcases ht with ht | ht | ⟨w, ht⟩ | ⟨w, ht⟩ <;> rw [ht] at hnull hlen hbuf ⊢ <;> replace hlen := hlen rfl <;> simp only [layout] at hnull hlen hbuf ⊢
   · refine ⟨?_, ?_, hc⟩
     · cases hx : d.nulls <;> simp_all
     · simpa using hlen
@@ -144,6 +144,7 @@ theorem validate_sound_binary {d : ArrayData} {large : Bool} (h : validateData d
   refine ⟨nullsOk_of_validate hh hn hi, ?_⟩
   obtain ⟨_, _, hlen, _, _⟩ := validateHead_ok hh
   rw [ht] at hlen ⊢
+  replace hlen := hlen rfl
   simp only [layout] at hlen ⊢
   obtain ⟨offs, data, hb⟩ := two_buffers (by simpa using hlen)
   refine ⟨hc, offs, data, hb, ?_⟩
@@ -165,6 +166,7 @@ theorem validate_sound_dict {d : ArrayData} {kw : Nat} {signed : Bool} {value : 
   refine ⟨nullsOk_of_validate hh hn hi, ?_⟩
   obtain ⟨_, _, hlen, hbuf, _⟩ := validateHead_ok hh
   rw [ht] at hlen hbuf ⊢
+  replace hlen := hlen rfl
   simp only [layout] at hlen hbuf ⊢
   obtain ⟨keys, hb⟩ := one_buffer (by simpa using hlen)
   rw [hb] at hbuf
@@ -206,6 +208,7 @@ theorem validate_sound_list {d : ArrayData} {large : Bool} {item : DType} {nulla
   refine ⟨nullsOk_of_validate hh hn hi, ?_⟩
   obtain ⟨_, _, hlen, _, _⟩ := validateHead_ok hh
   rw [ht] at hlen ⊢
+  replace hlen := hlen rfl
   simp only [layout] at hlen ⊢
   obtain ⟨offs, hb⟩ := one_buffer (by simpa using hlen)
   refine ⟨offs, c, hb, hc, hct, ?_, ?_⟩
@@ -239,6 +242,7 @@ theorem validate_sound_utf8 {d : ArrayData} {large : Bool} (h : validateData d =
   refine ⟨nullsOk_of_validate hh hn hi, ?_⟩
   obtain ⟨_, _, hlen, _, _⟩ := validateHead_ok hh
   rw [ht] at hlen ⊢
+  replace hlen := hlen rfl
   simp only [layout] at hlen ⊢
   obtain ⟨offs, data, hb⟩ := two_buffers (by simpa using hlen)
   refine ⟨hc, offs, data, hb, ?_⟩
@@ -274,9 +278,86 @@ theorem validate_sound_utf8 {d : ArrayData} {large : Bool} (h : validateData d =
       · rename_i v hs; rw [hs]; exact hbd
       · simp at hbd
 
+theorem validate_children_nil_view {d : ArrayData} {u : Bool} (h : validate d = .ok)
+    (ht : d.type = .view u) : d.children = [] := by
+  cases d with
+  | mk t l o n bs cs =>
+  unfold validate at h
+  rw [andThen_ok, andThen_ok] at h
+  have h2 := h.2.1
+  simp only at ht
+  subst ht
+  simp [errIf_ok] at h2
+  simpa using h2
+
+/-- the source's inline limit is the format's (T-tie: regenerated from `byte_view.rs`) -/
+theorem inline_limit_is_12 : ArrowModel.Generated.C09.MAX_INLINE_VIEW_LEN = 12 := by decide
+
+/-- **C09 for Utf8View / BinaryView**: acceptance ⇒ every view of the window is well-formed
+(`validate_view_impl`: inline padding, buffer index, range, prefix, UTF-8). -/
+theorem validate_sound_view {d : ArrayData} {u : Bool} (h : validateData d = .ok) (hi : RustInv d)
+    (ht : d.type = .view u) : LocalWF d ∧ d.children = [] := by
+  obtain ⟨hh, hn⟩ := validate_head_of_data h
+  obtain ⟨hv, hvals⟩ := validateValues_of_data h
+  have hc := validate_children_nil_view hv ht
+  refine ⟨?_, hc⟩
+  unfold LocalWF
+  refine ⟨nullsOk_of_validate hh hn hi, ?_⟩
+  obtain ⟨_, _, _, hbuf, _⟩ := validateHead_ok hh
+  unfold validateValues at hvals
+  rw [ht] at hbuf hvals ⊢
+  simp only [layout] at hbuf
+  simp only at hvals ⊢
+  rcases hb : d.buffers with _ | ⟨views, datas⟩
+  · rw [hb] at hvals; simp at hvals
+  · rw [hb] at hvals hbuf
+    simp only [buffersOk, Bool.and_eq_true, decide_eq_true_eq] at hbuf
+    have hsz := satMul_le hbuf.1 (hi.1 views (by simp [hb]))
+    refine ⟨hc, views, datas, rfl, by rw [Nat.add_comm]; exact hsz, ?_⟩
+    simp only at hvals
+    split at hvals
+    · simp at hvals
+    · split at hvals
+      · simp at hvals
+      · rw [errIf_ok] at hvals
+        simp only [Bool.not_eq_false'] at hvals
+        rw [allBelow_iff] at hvals
+        intro i hi'
+        have := hvals i hi'
+        rw [inline_limit_is_12] at this
+        exact this
+
+/-- **T-tie**: every source expression whose shape the model (and the counterexample theorems)
+depend on is still written the way the model mirrors it — regenerated from /repo on every run by
+`tools/translate.py` (`tools/items/C09.py`); an edit of one of them makes this theorem fail. -/
+theorem source_shape_ties :
+    (ArrowModel.Generated.C09.MAX_INLINE_VIEW_LEN_lost
+      || ArrowModel.Generated.C09.NULL_BITMAP_CEIL_DIV_lost
+      || ArrowModel.Generated.C09.TYPED_OFFSETS_PLUS_lost
+      || ArrowModel.Generated.C09.STRUCT_CHILD_LEN_USES_LEN_lost
+      || ArrowModel.Generated.C09.FSL_CHILD_LEN_USES_LEN_lost
+      || ArrowModel.Generated.C09.SPARSE_UNION_USES_LEN_PLUS_OFFSET_lost
+      || ArrowModel.Generated.C09.UNION_VALUES_UNCHECKED_lost
+      || ArrowModel.Generated.C09.REE_CHECK_RUN_ENDS_ON_CHILD_lost
+      || ArrowModel.Generated.C09.UTF8_BOUNDARY_BOTH_ENDS_lost
+      || ArrowModel.Generated.C09.EACH_OFFSET_SHAPE_lost
+      || ArrowModel.Generated.C09.CHECK_BOUNDS_SHAPE_lost
+      || ArrowModel.Generated.C09.RUN_ENDS_SHAPE_lost
+      || ArrowModel.Generated.C09.CONTAINS_ZIP_NO_OFFSET_lost
+      || ArrowModel.Generated.C09.OFFSET_BUFFER_WINDOWS_lost
+      || ArrowModel.Generated.C09.RUN_END_BUFFER_WINDOWS_lost
+      || ArrowModel.Generated.C09.VIEW_IMPL_SHAPE_lost
+      || ArrowModel.Generated.C09.UNION_TRY_NEW_SHAPE_lost) = false
+    ∧ ArrowModel.Generated.C09.MAX_INLINE_VIEW_LEN = 12
+    ∧ ArrowModel.Generated.C09.NULL_BITMAP_CEIL_DIV = 8
+    ∧ ArrowModel.Generated.C09.TYPED_OFFSETS_PLUS = 1
+    ∧ ArrowModel.Generated.C09.OFFSET_BUFFER_WINDOWS = 2
+    ∧ ArrowModel.Generated.C09.RUN_END_BUFFER_WINDOWS = 2
+    ∧ ArrowModel.Generated.C09.VIEW_IMPL_SHAPE = 32 := by decide
+
 /-- the types for which acceptance ⇒ well-formedness is proved -/
 def coveredType : DType → Bool
-  | .null | .bool | .prim _ | .fsb _ | .binary _ | .utf8 _ | .list _ _ _ | .dict _ _ _ => true
+  | .null | .bool | .prim _ | .fsb _ | .binary _ | .utf8 _ | .view _ | .list _ _ _ | .dict _ _ _ => true
   | _ => false
 
 mutual
@@ -323,6 +404,7 @@ theorem validate_sound_tree_partial : ∀ (d : ArrayData), validateModel d = .ok
       exact validate_sound_list hd hinv rfl
         (fun c hc => (localWF_of_wellFormed c (wellFormedAll_mem cs hall c hc)).1)
     | dict kw signed value => exact validate_sound_dict hd hinv rfl
+    | view u => exact (validate_sound_view hd hinv rfl).1
     | fsl _ _ _ => simp [coveredType] at hty
     | struct _ => simp [coveredType] at hty
     | ree _ _ => simp [coveredType] at hty
@@ -362,6 +444,7 @@ theorem validate_sound_struct_offset0_partial {d : ArrayData} {fields : Fields}
   refine ⟨nullsOk_of_validate hh hn hi, ?_⟩
   obtain ⟨_, _, hbl, _, _⟩ := validateHead_ok hh
   rw [ht] at hbl ⊢
+  replace hbl := hbl rfl
   simp only [layout, List.length_nil, List.length_eq_zero_iff] at hbl
   simp only
   refine ⟨hbl, ?_, ?_⟩
